@@ -1,6 +1,5 @@
-(* BuildDefExamples.v — instances for the C15 theorems and the refutation witness of
-   "build_model returns the class of the generated text" (the SyntaxError fallback returns the class of the last
-   single symbol, built with the default converter, and stamps the full text on it as CODE). *)
+(* BuildDefExamples.v — instances for the C15 theorems, including both sub-cases of build_model's BuildError
+   (fix 56579cc: a text that does not compile never yields a class). *)
 From Coq Require Import String Ascii List Bool Arith ZArith Lia.
 Import ListNotations.
 Require Import PyBase Generated PyStr Symbols ParseEq ParseModel Classify BuildDef BuildDefFacts.
@@ -63,17 +62,16 @@ Fixpoint contains (sub s : string) : bool :=
 (* a toy exec: the "class" is the text itself; a text containing `x = (` does not compile *)
 Definition toy_exec (text : string) : exec_res string := if contains "x = (" text then ExecSyntaxError else ExecOk text.
 
-Theorem build_model_is_exec_of_text_refuted :
-  exists syms c code,
-    build_model_M unit string conv_broken toy_exec tt syms default_opts true = (tt, Built c code) /\
-    snd (build_def unit conv_broken tt syms default_opts true) = POk code /\
-    toy_exec code = ExecSyntaxError /\
-    (* the class returned is the one of the last symbol alone, generated with the default converter *)
-    snd (build_def unit conv_default tt [sZ] default_opts true) = POk c.
-Proof.
-  exists [sY; sX; sZ]. eexists. eexists. split; [vm_compute; reflexivity|]. split; [vm_compute; reflexivity|].
-  split; vm_compute; reflexivity.
-Qed.
+(* fix 56579cc: a converter whose output does not compile -> BuildError although every single symbol, alone and with the
+   default converter, compiles (listed = false); with a symbol whose own code does not compile, listed = true *)
+Example build_model_broken_converter :
+  build_model_M unit string conv_broken toy_exec tt [sY; sX; sZ] default_opts true = (tt, BuildError false) /\
+  (exists text, snd (build_def unit conv_broken tt [sY; sX; sZ] default_opts true) = POk text /\ toy_exec text = ExecSyntaxError).
+Proof. split; [vm_compute; reflexivity|eexists; split; vm_compute; reflexivity]. Qed.
+Definition sB : symbol := mkSymbol (Some "B") TEndogenous (Some (IInt 0)) (Some (IInt 0)) (Some "B[t] = (") (Some "x = (").
+Example build_model_broken_symbol :
+  build_model_M unit string conv_default toy_exec tt [sY; sB] default_opts true = (tt, BuildError true).
+Proof. vm_compute. reflexivity. Qed.
 
 (* with a converter whose output compiles, the same symbols give exec(text) *)
 Example build_model_ok :
